@@ -171,7 +171,12 @@ theorem mutation_start_after_completion (c c' : Cfg) (l : Label) (h : SStep c l 
 
 /-- C03-4b. A completed root field has no live task left (whatever still runs in its subtree
 is abandoned background work below a nulled position), it stays completed with the same value
-under every later transition. -/
+under every later transition.  How cancelled tasks count: in the model a task whose parent has
+failed is abandoned, and abandoned or cancelled tasks are not live; the model does not say that
+a cancelled task has *finished unwinding* before the root field completes (its `fail`
+transition does not wait, see `Step.fail`).  The strict reading of the property - every
+resolver coroutine of root field `i`, cancelled ones included, has finished before root field
+`i+1` starts - is evaluated on the implementation by the check's oracle. -/
 theorem completed_field_is_quiet (f : Cfg) (v : Val) (hi : Inv f) (hv : forestVals f = some v) :
     liveQuiet f = true ∧ ∀ l f', Step false f l f' → forestVals f' = some v :=
   ⟨completed_liveQuiet f v hi hv, fun _ _ hs => step_forestVals hs v hv⟩
